@@ -974,4 +974,42 @@ theorem expectAll_spec {fb fb' : FB} (wf : WfFB fb) (exp : List (Name × Option 
             rw [get?_cons, if_neg (fun e => hp.1 e.symm)]; rfl
           rw [this]; cases get? p fb.posSig <;> rfl
 
+/-! ### when does a call bind -/
+
+theorem fillPos_isSome_iff (ps : List (Name × Option Val)) (vs : List Val) (kws : List (Name × Val)) :
+    (fillPos ps vs kws).isSome ↔
+      (∀ p ∈ ps.take vs.length, get? p.1 kws = none) ∧
+      (∀ p ∈ ps.drop vs.length, p.2.isSome ∨ (get? p.1 kws).isSome) := by
+  induction ps generalizing vs with
+  | nil => simp [fillPos]
+  | cons p ps ih =>
+    obtain ⟨n, d⟩ := p
+    cases vs with
+    | cons v vs =>
+      simp only [fillPos, List.length_cons, List.take_succ_cons, List.drop_succ_cons, List.mem_cons,
+        forall_eq_or_imp]
+      cases hg : get? n kws with
+      | some x => simp
+      | none =>
+        simp only [Option.isSome_none, Bool.false_eq_true, if_false, Option.isSome_map, true_and]
+        exact ih vs
+    | nil =>
+      simp only [fillPos, List.length_nil, List.take_zero, List.drop_zero, List.not_mem_nil,
+        false_imp_iff, implies_true, true_and, List.mem_cons, forall_eq_or_imp]
+      have ih0 := ih []
+      simp only [List.length_nil, List.take_zero, List.drop_zero, List.not_mem_nil,
+        false_imp_iff, implies_true, true_and] at ih0
+      cases hg : get? n kws with
+      | some x =>
+        have : (some x).or d = some x := by cases d <;> rfl
+        simp only [this, Option.isSome_map, Option.isSome_some, or_true, true_and]
+        exact ih0
+      | none =>
+        cases d with
+        | none => simp
+        | some dv =>
+          have : (none : Option Val).or (some dv) = some dv := rfl
+          simp only [this, Option.isSome_map, Option.isSome_some, true_or, true_and]
+          exact ih0
+
 end C13
